@@ -296,16 +296,18 @@ ROUND7 = {
     "C02": "R02.11 (= C04 R04.9) a buffer returned to a buffer pool is fresh or cleared.",
     "C03": "R03.4 also: the shard walk of a keyspace-wide arm passes no narrowing adaptor (filter/take/skip ..).",
     "C04": "R04.3 also: a wholesale replacement or shortening of the input buffer in the read loop counts as a discard.",
-    "C05": "R05.7 also: every path of the in-transaction queueing arm pushes to the queue or marks the transaction failed. R05.10 see above.",
+    "C05": "R05.7 also: every path of the in-transaction queueing arm pushes to the queue or marks the transaction failed. R05.11 (= C16 R16.7) the executor's EXEC leaves queuing mode before it replays.",
     "C06": "R06.11 also covers R08.12 (register mutators tick on every path; a register built next to the node clock is stamped with tick()).",
     "C07": "R07.7 (= C08 R08.12) every stamped mutation takes a fresh tick.",
-    "C08": "R08.12 register mutators tick on every path and with_value stamps come from tick(). R08.13 (= C13 R13.1) the compaction fold replaces an entry only for a greater stamp.",
-    "C09": "R09.12 (= C10 R10.11) the WAL reader does not branch on the content of a decoded entry.",
+    "C08": "R08.12 register mutators tick on every path and with_value stamps come from tick(). R08.13 (= C13 R13.1) the compaction fold replaces an entry only for a greater stamp. R08.14 (= C07 R07.6) a clock's replica id is written only at construction.",
+    "C09": "R09.12 (= C10 R10.11) the WAL reader does not branch on the content of a decoded entry. R09.13 (= C10 R10.12) a WalWriter is told the sequence its file was named with.",
     "C10": "R10.11 no branch of WalReader::entries depends on the content of a decoded entry. R10.12 a WalWriter is told the sequence its file was named with.",
     "C13": "R13.17 a key handed to ObjectStore::delete in compaction code never derives from a store listing.",
-    "C14": "R14.8 also: derived Serialize writes every field unconditionally.",
+    "C14": "R14.8 also: derived Serialize writes every field unconditionally. R14.16 (= C10 R10.11).",
     "C16": "R16.7 in the executor's EXEC the store in_transaction = false dominates the replay of the queue.",
     "C17": "R17.8 writes after a reply borrowed from a sibling handler are behind a test that excludes its Error variant.",
+    "C11": "R11.15 (= C10 R10.11) the WAL reader does not branch on the content of a decoded entry.",
+    "C12": "R12.12 (= C13 R13.17) compaction deletes only keys of segments it folded.",
     "C20": "R20.1's exception for Compactor::new carries a checked side condition (wall-clock values in compact are only compared with Lamport times).",
 }
 for _pid, _extra in ROUND7.items():
